@@ -110,7 +110,7 @@ pub fn gen(seed: u64, tier: &str) -> Vec<Value> {
             json!({"op": op, "n": name, "v": bytes_json(&v)})
         }).collect();
         if rng.gen_bool(0.3) {
-            let msg = ["", "denied", "nö %", "a b"][rng.gen_range(0..4)];
+            let msg = ["", "denied", "nö %", "a b", "%", "%41", "path 'a%2Fb' (saw %41)", "100% sure", "%zz %4", "tab\there", "x%25y"][rng.gen_range(0..11)];
             let dl = rng.gen_range(0..5);
             actions.push(json!({"op":"reject","n":"","v":[],"code":rng.gen_range(0..17),"msg":str_json(msg),"details":bytes_json(&(0..dl).map(|_| rng.gen()).collect::<Vec<u8>>()),"meta":crate::labs::status::rand_meta(&mut rng)}));
         }
